@@ -11,22 +11,22 @@ checks = json.load(open(os.path.join(HERE, "checks.json")))
 CLAIMED = {
  "C01": ("exploration",
          "rapid-generated concurrent request rounds through the full stack; per-nonce differential against recording backends",
-         "Rounds of 1..32 requests (all route families, methods, generated paths/queries, body sizes 0..4 MiB around the 1 MiB inspection limit, JSON/non-JSON, Content-Length and generated chunk plans, delayed tails) are released together through the production assembly on both engines; every upstream request is matched to its client request by nonce and compared (method, stripped path, raw query, length, SHA-256; for translated requests model and content ownership), with exactly-once delivery and no phantom upstream request. In a quarter of the rounds a refusing endpoint is in rotation, so that some requests are dispatched to it first and replayed on a working endpoint (the replayed body is judged like any other).",
+         "Rounds of 1..32 requests (all route families, methods, generated paths/queries, body sizes 0..4 MiB around the 1 MiB inspection limit, JSON/non-JSON, Content-Length and generated chunk plans, delayed tails) are released together through the production assembly on both engines; every upstream request is matched to its client request by nonce and compared (method, stripped path, raw query, length, SHA-256; for translated requests model and content ownership), with exactly-once delivery and no phantom upstream request. In a quarter of the rounds a refusing endpoint is in rotation, so that some requests are dispatched to it first and replayed on a working endpoint (the replayed body is judged like any other). Queries are generated on the Anthropic routes too, a fifth of the paths end in a slash and some remaining paths start with 'olla'.",
          "Schedule-dependent: covers the interleavings 16 cores produce for harness-shaped rounds (large chunked bodies with delayed tails among small inspected ones), not all schedules; replay repeats a round 40 times.",
          "DESIGN.md §3 C01"),
  "C02": ("fault_enumeration",
          "fault-injecting raw-TCP backends + rapid-generated fault combinations; transcript-prefix oracle",
-         "Every single-fault shape (reset/close/stall before headers, after headers, after k body bytes, truncated chunked, short Content-Length, garbage, refuse) is enumerated as first-dispatched backend in front of a healthy one on both engines x 3 proxy profiles, and fault combinations over 1..3 backends are rapid-generated; the client's bytes are compared with the per-backend transcripts (status, end-to-end headers, body prefix, no byte of another attempt, no dispatch after delivery began). Backends also answer without a Content-Type header (the type net/http then sniffs is treated as Olla's own header).",
+         "Every single-fault shape (reset/close/stall before headers, after headers, after k body bytes, truncated chunked, short Content-Length, garbage, refuse) is enumerated as first-dispatched backend in front of a healthy one on both engines x 3 proxy profiles, and fault combinations over 1..3 backends are rapid-generated; the client's bytes are compared with the per-backend transcripts (status, end-to-end headers, body prefix, no byte of another attempt, no dispatch after delivery began). Backends also answer without a Content-Type header (the type net/http then sniffs is treated as Olla's own header). Sub-check 'concurrent': 2..16 clients at a time receive complete self-identifying bodies (up to 2 MiB) from 2..3 backends; every response must be byte for byte the body of the backend its X-Backend-Id names.",
          "Trusts the harness raw backend/client and that self-identifying body tiles attribute bytes correctly; schedules are those the harness produces (one request at a time per stack).",
          "DESIGN.md §3 C02"),
  "C07": ("exploration",
          "rapid op-list histories against a reference scheduler/backoff/breaker model with simulated time; pure-function classification table",
-         "Generated histories of scheduler ticks (30 s of simulated time + one real scheduler step), time advances, outcome changes (2xx, 4xx/5xx, refuse, network timeout, context deadline), proxy-detected connection failures through the real RetryHandler and RunHealthCheck rounds drive the real repository and HTTPHealthChecker over a scripted HTTP client for 1..3 endpoints with generated intervals/timeouts; after every step status, consecutive failures, next-check delay (interval x 1,2,4,8,12,12.. capped at 60 s), breaker admission and real probes are compared with a reference model; every history ends with a recovery suffix (answers 200 again => probed for real and healthy within 150 s of ticks) and recovery callbacks are counted per not-healthy->healthy transition. The status classification is additionally checked as a pure function over (code, latency, error class) including the slow (>10 s) branch.",
+         "Generated histories of scheduler ticks (30 s of simulated time + one real scheduler step), time advances, outcome changes (2xx, 4xx/5xx, refuse, network timeout, context deadline), proxy-detected connection failures through the real RetryHandler and RunHealthCheck rounds drive the real repository and HTTPHealthChecker over a scripted HTTP client for 1..3 endpoints with generated intervals/timeouts; after every step status, consecutive failures, next-check delay (interval x 1,2,4,8,12,12.. capped at 60 s), breaker admission and real probes are compared with a reference model; every history ends with a recovery suffix (answers 200 again => probed for real and healthy within 150 s of ticks) and recovery callbacks are counted per not-healthy->healthy transition. The status classification is additionally checked as a pure function over (code, latency, error class) including the slow (>10 s) branch. A quarter of the histories are forced check rounds at a cadence below the breaker timeout around an outage.",
          "Simulated time = rewinding stored timestamps (repository API + overlay hook for the breaker); decisions within 2-3 s of a boundary are not asserted; 'for ever' is judged on every prefix of finite histories plus the recovery suffix.",
          "DESIGN.md §3 C07"),
  "C08": ("exploration",
          "small-scope exhaustive enumeration of operation sequences + rapid sequences against a set-valued reference automaton; simulated time; concurrent admission race",
-         "All sequences over {failure, success, ask, advance <timeout, >timeout, >probe window} up to length 6 (quick) / 8 (thorough) are run against the three real breakers (health, olla engine, unifier with several configurations) and compared, ask by ask, with a reference automaton written from the statement that yields the set of allowed answers; every sequence ends with a recovery suffix (works again => closes, count cleared, trips again at threshold); longer sequences are rapid-generated; G concurrent callers race on a timed-out breaker and admissions are counted against the stated limits.",
+         "All sequences over {failure, success, ask, advance <timeout, >timeout, >probe window} up to length 6 (quick) / 8 (thorough) are run against the three real breakers (health, olla engine, unifier with several configurations) and compared, ask by ask, with a reference automaton written from the statement that yields the set of allowed answers; every sequence ends with a recovery suffix (works again => closes, count cleared, trips again at threshold); longer sequences are rapid-generated; G concurrent callers race on a timed-out breaker and admissions are counted against the stated limits. The unification breaker is also driven through the unifier's EndpointManager (same reference automaton).",
          "Time is simulated by rewinding stored timestamps through build-tag-guarded overlay hooks (exact for 'now - stored > timeout' code); where the statement is silent both answers are accepted; the concurrent part explores only the schedules the Go scheduler happens to produce.",
          "DESIGN.md §3 C08"),
  "C09": ("exploration",
@@ -36,7 +36,7 @@ CLAIMED = {
          "DESIGN.md §3 C09"),
  "C10": ("exploration",
          "rapid op-list state machine against a reference map (sequential, rounds, concurrent bursts with a sequential shadow run); glob-filter differential (long-lived vs fresh vs reference matcher); scripted discovery machine",
-         "Generated histories of register / replace / remove / invalid updates over 3 endpoints and a collision-rich model alphabet are applied to the plain and the unified registry; after every step (at quiescence) per-endpoint listings, model->endpoints lookups, availability, statistics and the unified catalogue are compared through the exported queries with a reference map of the last successful listing; rejected updates must change nothing. A long-lived GlobFilter must answer every (name, patterns) like a fresh one and like a reference matcher; ModelDiscoveryService.DiscoverEndpoint with a scripted client and generated filters must leave exactly the filtered listing.",
+         "Generated histories of register / replace / remove / invalid updates over 3 endpoints and a collision-rich model alphabet are applied to the plain and the unified registry; after every step (at quiescence) per-endpoint listings, model->endpoints lookups, availability, statistics and the unified catalogue are compared through the exported queries with a reference map of the last successful listing; rejected updates must change nothing. A long-lived GlobFilter must answer every (name, patterns) like a fresh one and like a reference matcher; ModelDiscoveryService.DiscoverEndpoint with a scripted client and generated filters must leave exactly the filtered listing. Sub-check 'apply': 2..5 simultaneous filter passes through one shared GlobFilter; half of the registrations use a context that ends as soon as the call returns, as a discovery round's does.",
          "Case-insensitive / alias fallback lookups are only constrained to return endpoints listing a related name; quiescence is detected by stable repeated polls (a real mismatch persists).",
          "DESIGN.md §3 C10"),
  "C11": ("exploration",
@@ -56,37 +56,37 @@ CLAIMED = {
          "DESIGN.md §3 C13"),
  "C14": ("exploration",
          "enumeration of endpoint-type pairs + rapid-generated deployments through the full stack; typed recording backends; YAML-derived native-support oracle",
-         "Deployments of 1..4 endpoints typed from the shipped profiles (native Anthropic support read from the YAML by the harness's own reader), each reachable or refusing, with passthrough enabled/disabled, stream on/off, two balancers and both engines: every type pair is enumerated, larger mixes are rapid-generated. Recording backends tell which path each endpoint saw and whether the body was byte-identical to the client's; a non-native endpoint never sees the Anthropic form, a request is never sent both ways, passthrough is used iff enabled and a reachable native endpoint exists, failover stays inside the native subset, and X-Olla-Mode and the /internal/stats/translators counters agree with what was observed.",
+         "Deployments of 1..4 endpoints typed from the shipped profiles (native Anthropic support read from the YAML by the harness's own reader), each reachable or refusing, with passthrough enabled/disabled, stream on/off, two balancers and both engines: every type pair is enumerated, larger mixes are rapid-generated. Recording backends tell which path each endpoint saw and whether the body was byte-identical to the client's; a non-native endpoint never sees the Anthropic form, a request is never sent both ways, passthrough is used iff enabled and a reachable native endpoint exists, failover stays inside the native subset, and X-Olla-Mode and the /internal/stats/translators counters agree with what was observed. translators.anthropic.max_message_size is either set explicitly or left at 0 (use the default).",
          "Model routing is neutralised (model registered on every endpoint); no fallback from a failed passthrough subset to translation is required.",
          "DESIGN.md §3 C14"),
  "C15": ("exploration",
          "rapid-generated raw header blocks through the full stack; received header block compared by an independent multiset oracle",
-         "A raw TCP client writes generated header blocks (every sensitive and hop-by-hop name in random letter case, 0..3 occurrences, empty values; up to 40 arbitrary token-named headers with repeated names, obs-text and tabs; pre-existing Via / X-Forwarded-* / X-Real-IP on one or several lines) on proxy, provider, Anthropic passthrough and translated routes of both engines, with and without failover from a refusing endpoint; the raw backend's received header block must contain no sensitive or hop-by-hop header, every other client header with the same values in the same per-name order, nothing invented beyond the headers Olla/transport legitimately add, and every pre-existing forwarding value still in place before Olla's own element. A quarter of the cases are sparse (only one or two blocked names present, with drawn patterns of empty and non-empty lines).",
+         "A raw TCP client writes generated header blocks (every sensitive and hop-by-hop name in random letter case, 0..3 occurrences, empty values; up to 40 arbitrary token-named headers with repeated names, obs-text and tabs; pre-existing Via / X-Forwarded-* / X-Real-IP on one or several lines) on proxy, provider, Anthropic passthrough and translated routes of both engines, with and without failover from a refusing endpoint; the raw backend's received header block must contain no sensitive or hop-by-hop header, every other client header with the same values in the same per-name order, nothing invented beyond the headers Olla/transport legitimately add, and every pre-existing forwarding value still in place before Olla's own element. A quarter of the cases are sparse (only one or two blocked names present, with drawn patterns of empty and non-empty lines). Exactly one element may be appended to Via / X-Forwarded-For, also after fail-over.",
          "Headers nominated by the client's Connection value are not asserted; names compared case-insensitively.",
          "DESIGN.md §3 C15"),
  "C16": ("exploration",
          "rapid-generated raw request targets and endpoint configurations through the full stack; decoy listener + containment oracle on the backend's request line; differential for clean targets",
-         "Request targets are written verbatim by a raw client (dot segments, single/double percent-encodings, encoded slashes and backslashes, //, ;params, authority tricks, absolute-form targets and query values naming a decoy listener) against endpoints with empty, '/', and nested base paths, preserve_path on/off, two route prefixes and both engines; the decoy must never be contacted, the raw backend's request line must stay under the base path when preserve_path is set, clean targets must arrive at exactly base+remaining (or remaining) with the query verbatim; generated relative/absolute health_check_url / model_url values are resolved by LoadFromConfig and must keep scheme/host and stay under the base path. Route prefixes: /olla/proxy/ and every routing prefix the shipped profiles declare (alias spellings included), in front of an endpoint of the owning type.",
+         "Request targets are written verbatim by a raw client (dot segments, single/double percent-encodings, encoded slashes and backslashes, //, ;params, authority tricks, absolute-form targets and query values naming a decoy listener) against endpoints with empty, '/', and nested base paths, preserve_path on/off, two route prefixes and both engines; the decoy must never be contacted, the raw backend's request line must stay under the base path when preserve_path is set, clean targets must arrive at exactly base+remaining (or remaining) with the query verbatim; generated relative/absolute health_check_url / model_url values are resolved by LoadFromConfig and must keep scheme/host and stay under the base path. Route prefixes: /olla/proxy/ and every routing prefix the shipped profiles declare (alias spellings included), in front of an endpoint of the owning type. Trailing slashes and remaining paths that themselves start with /olla/ are judged exactly.",
          "Unclean targets may be answered by the mux without backend contact (not a violation); Host header is not asserted; one listed known finding (percent-encoded dot segments under preserve_path) is tolerated by exact signature.",
          "DESIGN.md §3 C16"),
  "C03": ("exploration",
          "rapid selector cases; rapid op-list histories against a reference status model through the full stack; concurrent writers/senders with sequence-stamped interval oracle",
-         "(a) generated endpoint lists through every selector from balancer.Factory: a routable member of the list or an error iff none is routable; (b) generated histories of scripted health results, backends going down/up, requests and real RunHealthCheck rounds over up to 4 endpoints, 3 balancers and 2 engines, compared step by step with a reference status model (which backend may be served, which status changes a request may cause, what a health check must conclude); (c) one status writer per endpoint and several request senders run concurrently, every action stamped with a global sequence number: an endpoint may serve a request only if it could have been routable at some instant of the request's span.",
+         "(a) generated endpoint lists through every selector from balancer.Factory: a routable member of the list or an error iff none is routable; (b) generated histories of scripted health results, backends going down/up, requests and real RunHealthCheck rounds over up to 4 endpoints, 3 balancers and 2 engines, compared step by step with a reference status model (which backend may be served, which status changes a request may cause, what a health check must conclude); (c) one status writer per endpoint and several request senders run concurrently, every action stamped with a global sequence number: an endpoint may serve a request only if it could have been routable at some instant of the request's span. Histories include backends that reset the connection after the response head (break/mend); the concurrent sub-check ends with burst rounds (all endpoints change status at one instant under HTTP traffic and tight GetHealthy readers) followed by an aftermath step in which fresh requests are judged against the final statuses.",
          "Routable statuses are the harness's own statement (healthy, busy, warming); after three failed health checks the health breaker may delay readmission (accepted); (c) covers the interleavings produced on this machine.",
          "DESIGN.md §3 C03"),
  "C04": ("fault_enumeration",
          "enumeration of per-candidate outcome tuples with fault-injecting backends + rapid-generated histories; attempt-count / fingerprint / status / follow-up oracle",
-         "Every assignment of {ok, refuse, reset-before-headers, circuit-open} (asserted) and {closed-without-answer, garbage} (explored) to up to 3 candidates is run on 3 balancers x 2 engines through the full stack; rapid adds bodies, methods and warm-up histories. With a working candidate and otherwise connection-level failures or skips the client must get that candidate's untouched answer (X-Olla-Endpoint naming it), every backend sees the identical request at most once, a failing request must have tried every candidate, failed endpoints are non-routable afterwards, receive none of five follow-up requests and are readmitted by a health check. Client bodies are sent with Content-Length or chunked and the body the serving backend received is compared with the client's; one candidate per case may also time out at connect (a local address whose accept queue is full).",
+         "Every assignment of {ok, refuse, reset-before-headers, circuit-open} (asserted) and {closed-without-answer, garbage} (explored) to up to 3 candidates is run on 3 balancers x 2 engines through the full stack; rapid adds bodies, methods and warm-up histories. With a working candidate and otherwise connection-level failures or skips the client must get that candidate's untouched answer (X-Olla-Endpoint naming it), every backend sees the identical request at most once, a failing request must have tried every candidate, failed endpoints are non-routable afterwards, receive none of five follow-up requests and are readmitted by a health check. Client bodies are sent with Content-Length or chunked and the body the serving backend received is compared with the client's; one candidate per case may also time out at connect (a local address whose accept queue is full). Sub-check 'fanout': 2..48 simultaneous first requests spread over up to 48 never-seen reachable endpoints must all be served, each exactly once (a process crash of the system under test is reported as a violation by the driver).",
          "The engine breaker is opened through its exported API (RecordFailure x5); refused dials cannot be observed at the backend, only through statuses.",
          "DESIGN.md §3 C04"),
  "C05": ("fault_enumeration",
          "complete enumeration of the failure-mode grid with fault-injecting backends + rapid-generated error bodies; status/format/promptness oracle",
-         "The grid {no endpoints, all unhealthy, unknown model, every endpoint refusing / resetting / closing before headers, backend 400..503 x {OpenAI error JSON, other JSON, HTML, empty}, 2xx with malformed body} x {proxy, provider, Anthropic translated, Anthropic passthrough} x stream flag x engine x endpoint count is enumerated completely through the full stack and rapid adds request texts and odd error bodies: no 2xx and no fabricated completion when nobody answered, non-empty error body, completion within 10 s while every timeout is >= 60 s, Anthropic error objects (application/json) on the Anthropic routes for both stream flags, backend statuses kept and bodies relayed. The failure grid includes 'every candidate's breaker open', error bodies above the relay cap (big JSON / big HTML), and a promptness bound for relayed backend errors.",
+         "The grid {no endpoints, all unhealthy, unknown model, every endpoint refusing / resetting / closing before headers, backend 400..503 x {OpenAI error JSON, other JSON, HTML, empty}, 2xx with malformed body} x {proxy, provider, Anthropic translated, Anthropic passthrough} x stream flag x engine x endpoint count is enumerated completely through the full stack and rapid adds request texts and odd error bodies: no 2xx and no fabricated completion when nobody answered, non-empty error body, completion within 10 s while every timeout is >= 60 s, Anthropic error objects (application/json) on the Anthropic routes for both stream flags, backend statuses kept and bodies relayed. The failure grid includes 'every candidate's breaker open', error bodies above the relay cap (big JSON / big HTML), and a promptness bound for relayed backend errors. 2xx answers with valid JSON that is not a completion (error object, no choices, {}) and the no-endpoint modes under every model-routing strategy are part of the grid.",
          "Promptness is a one-sided wall-clock bound with a 6x margin; a 2xx backend answer with a malformed body is only asserted on the non-streaming translated path.",
          "DESIGN.md §3 C05"),
  "C17": ("exploration",
          "rapid-generated client behaviours against freshly booted rate-limited stacks; token-bucket upper bound oracle over an over-estimated window; size cases around the limits",
-         "Each rate case boots the production assembly with fast limits (300..1200/min, burst 1..10, optional global limit) and drives 1..8 concurrent senders (own connections, keep-alive on/off, proxy/provider/Anthropic/mixed routes, interleaved health requests); requests that reach the recording backend are counted against burst + rate x t + 1 over the window [first send, last receive], every refusal must be 429. Size cases send bodies at limit-1, limit, limit+1 and 5x limit with Content-Length or chunked framing against max_body_size and the Anthropic max_message_size: nothing above the limit reaches the backend, no 2xx, 413 on the Anthropic route. Sub-check 'first': 2..12 requests fired at the same instant over pre-established connections from a client address the limiter has never seen (a fresh loopback address per case): at most burst are admitted.",
+         "Each rate case boots the production assembly with fast limits (300..1200/min, burst 1..10, optional global limit) and drives 1..8 concurrent senders (own connections, keep-alive on/off, proxy/provider/Anthropic/mixed routes, interleaved health requests); requests that reach the recording backend are counted against burst + rate x t + 1 over the window [first send, last receive], every refusal must be 429. Size cases send bodies at limit-1, limit, limit+1 and 5x limit with Content-Length or chunked framing against max_body_size and the Anthropic max_message_size: nothing above the limit reaches the backend, no 2xx, 413 on the Anthropic route. Sub-check 'first': 2..12 requests fired at the same instant over pre-established connections from a client address the limiter has never seen (a fresh loopback address per case): at most burst are admitted. The route mix includes proxied paths that end in /internal/health.",
          "All senders share 127.0.0.1; the window is over-estimated so load can only loosen the bound (no false alarm), at the price of missing marginal excess.",
          "DESIGN.md §3 C17"),
  "C18": ("exploration",
@@ -96,17 +96,17 @@ CLAIMED = {
          "DESIGN.md §3 C18"),
  "C06": ("exploration",
          "rapid-generated endpoint lists against a reference selector model; concurrent fairness counting",
-         "Selectors obtained from balancer.Factory over a real stats collector are judged against reference rules on generated lists (n<=5, all statuses, priorities, gauge vectors) sequentially and from up to 32 goroutines: member-or-error, top-tier only and every tier member reached, exact k-per-member round-robin fairness over any window, minimal gauge for least-connections. A 'gauges' sub-check fires concurrent first-use increments at never-seen endpoints: none may be lost.",
+         "Selectors obtained from balancer.Factory over a real stats collector are judged against reference rules on generated lists (n<=5, all statuses, priorities, gauge vectors) sequentially and from up to 32 goroutines: member-or-error, top-tier only and every tier member reached, exact k-per-member round-robin fairness over any window, minimal gauge for least-connections. A 'gauges' sub-check fires concurrent first-use increments at never-seen endpoints: none may be lost. Every Select / Increment / Decrement call gets its own copies of the endpoint structs, as the repository hands them out per request.",
          "Priority's weighted pick uses unseedable math/rand: tier coverage is judged over 1200 selections (miss probability <= e^-29 per case).",
          "DESIGN.md §3 C06"),
  "C19": ("exploration",
          "rapid-generated concurrent workloads over scripted per-endpoint outcomes; harness tally (client observations + backend-side attempts) vs counter deltas; gauge sampling and quiescence invariant",
-         "Workloads of 1..64 concurrent clients through the full stack against up to 3 endpoints with fixed scripted outcomes (ok, 500, 404, reset mid-body, stall mid-body, reset before headers, refuse), on proxy, Anthropic translated and passthrough routes, 3 balancers and both engines, with optional client aborts. Gauges are sampled during the run (never negative, never above what the started requests can account for) and must be zero at quiescence; collector totals (global, per endpoint), engine and translator counters are compared as deltas with the harness's own tally: total = success + failure, attempts recorded once, successes = complete 2xx responses, failing endpoints record no success. Sub-check 'inflight': simultaneous clients against never-seen endpoints that are dead or hold the request; once all requests are parked the gauges must be exact (hold = requests parked there, dead = 0).",
+         "Workloads of 1..64 concurrent clients through the full stack against up to 3 endpoints with fixed scripted outcomes (ok, 500, 404, reset mid-body, stall mid-body, reset before headers, refuse), on proxy, Anthropic translated and passthrough routes, 3 balancers and both engines, with optional client aborts. Gauges are sampled during the run (never negative, never above what the started requests can account for) and must be zero at quiescence; collector totals (global, per endpoint), engine and translator counters are compared as deltas with the harness's own tally: total = success + failure, attempts recorded once, successes = complete 2xx responses, failing endpoints record no success. Sub-check 'inflight': simultaneous clients against never-seen endpoints that are dead or hold the request; once all requests are parked the gauges must be exact (hold = requests parked there, dead = 0). Outcomes include an orderly close short of the announced Content-Length.",
          "Client-aborted exchanges may be recorded either way; an endpoint skipped for its open breaker may be recorded as a failure (olla engine); four listed known findings (relayed 4xx/5xx and translator backend errors counted as successes, engine totals per request vs outcomes per attempt) are tolerated by exact signature, anything not explained by them is reported.",
          "DESIGN.md §3 C19"),
  "C20": ("exploration",
          "seed-corpus + rapid-generated byte/JSON mutations with per-target judges; native go fuzz targets (thorough); poisoned discovery rounds and hostile relay bodies through the full stack",
-         "Every provider's listing parser (through the real profile factory), the metrics extractor for every profile, TransformResponse and TransformStreamingResponse are fed the repository's own fixtures, hostile constants and rapid-generated byte-level and JSON-aware mutations of them; each call runs under a panic/hang guard (5 s) and its result is judged (error or sane output, finite non-wrapping numbers). At stack level a discovery round in which one endpoint serves an unparseable / empty / oversized / nameless / duplicate listing while another serves a good one must leave the registry consistent, keep a concurrent probe request served and let the next good round through; hostile bodies are relayed through the error and stream paths. The same judges sit inside four native fuzz targets whose saved inputs are replayed on every run. After a poisoned listing the unified catalogue is judged as well (modulo names equal up to case); hostile stream constants include a >1 MiB line after output has started.",
+         "Every provider's listing parser (through the real profile factory), the metrics extractor for every profile, TransformResponse and TransformStreamingResponse are fed the repository's own fixtures, hostile constants and rapid-generated byte-level and JSON-aware mutations of them; each call runs under a panic/hang guard (5 s) and its result is judged (error or sane output, finite non-wrapping numbers). At stack level a discovery round in which one endpoint serves an unparseable / empty / oversized / nameless / duplicate listing while another serves a good one must leave the registry consistent, keep a concurrent probe request served and let the next good round through; hostile bodies are relayed through the error and stream paths. The same judges sit inside four native fuzz targets whose saved inputs are replayed on every run. After a poisoned listing the unified catalogue is judged as well (modulo names equal up to case); hostile stream constants include a >1 MiB line after output has started. Listing answers with error statuses (recovery mode: the recovered endpoint must be asked for its models again) and ollama-style duplicate entries with digests in several spellings are generated.",
          "Native coverage-guided fuzzing cannot be seeded and runs only in the thorough tier; the hang bound is wall-clock (5 s for inputs capped at 64 KiB).",
          "DESIGN.md §3 C20"),
 }
